@@ -475,6 +475,16 @@ func rsGzipRaw(plain []byte) []byte {
 }
 
 func rsResult(kind string, tag int) (payload []byte, val string) {
+	if strings.HasPrefix(kind, "vl") && len(kind) > 2 { // vl<n>: Vector<long> of n elements (serialised size 8+8n)
+		n := atoi(kind[2:])
+		b := rsCat(rsU32(rsCrcVector), rsU32(uint32(n)))
+		xs := make([]string, n)
+		for i := 0; i < n; i++ {
+			b = append(b, rsU64(uint64(tag+i))...)
+			xs[i] = fmt.Sprintf("l%d", tag+i)
+		}
+		return b, "v(" + strings.Join(xs, ";") + ")"
+	}
 	switch kind {
 	case "o": // an object: pong carrying the caller's tag
 		return rsCat(rsU32(rsCrcPong), rsU64(uint64(tag)), rsU64(uint64(tag)*3+1)),
@@ -508,9 +518,10 @@ func rsRpcResult(reqID uint64, payload []byte) []byte {
 // ---- the client under test -----------------------------------------------------------------------------
 
 type rsStore struct {
-	mu  sync.Mutex
-	s   *session.Session
-	log *rsLog
+	failNext int // the next so many Store calls fail (plan step fs:<n>)
+	mu       sync.Mutex
+	s        *session.Session
+	log      *rsLog
 }
 
 func (st *rsStore) Load() (*session.Session, error) {
@@ -521,6 +532,13 @@ func (st *rsStore) Load() (*session.Session, error) {
 }
 func (st *rsStore) Store(x *session.Session) error {
 	st.mu.Lock()
+	if st.failNext > 0 {
+		// an injected fault: the store refuses (disk full, permissions …); F:s:<salt> instead of W:<salt>
+		st.failNext--
+		st.mu.Unlock()
+		st.log.add("F:s:%d", x.Salt)
+		return fmt.Errorf("injected session store failure")
+	}
 	c := *x
 	st.s = &c
 	st.mu.Unlock()
@@ -592,6 +610,8 @@ func rsWarnClass(err error) string {
 		return "reconnect"
 	case strings.Contains(s, "sending ack"):
 		return "ackfail" // the consequence of an injected write fault (event F), not a message the client could not handle
+	case strings.Contains(s, "saving session"):
+		return "storefail" // the consequence of an injected store fault (event F:s)
 	}
 	if len(s) > 40 {
 		s = s[:40]
@@ -612,10 +632,10 @@ func (r *rsRun) call(i int) {
 		req := &objects.PingParams{PingID: int64(rsTagBase + i)}
 		var res interface{}
 		var err error
-		switch r.kinds[i] {
-		case "vl":
+		switch {
+		case strings.HasPrefix(r.kinds[i], "vl"):
 			res, err = r.m.MakeRequestWithHintToDecoder(req, reflect.TypeOf([]int64{}))
-		case "vo":
+		case r.kinds[i] == "vo":
 			res, err = r.m.MakeRequestWithHintToDecoder(req, reflect.TypeOf([]*objects.FutureSalt{}))
 		default:
 			res, err = r.m.MakeRequest(req)
@@ -713,6 +733,13 @@ func (r *rsRun) item(it string) (body []byte, content bool, desc string, ok bool
 			code = 17
 		}
 		return rsCat(rsU32(rsCrcBadMsg), rsU64(f.Mid), rsU32(f.Seq), rsU32(code)), false, fmt.Sprintf("badmsg(%d)", f.Mid), true
+	case strings.HasPrefix(it, "tr"): // an rpc_result (for an unknown request) cut to this many bytes
+		n := atoi(it[2:])
+		b := rsRpcResult(0x0123456789abcdef, rsCat(rsU32(rsCrcPong), rsU64(1), rsU64(2)))
+		if n > len(b) {
+			n = len(b)
+		}
+		return b[:n], true, "trunc", true
 	case it == "zt" || it == "zc": // gzip_packed, well framed: the 8-byte trailer is missing / carries a wrong crc32
 		// (the deflate data is complete: the client as it stands reads the pong and ignores the damaged end —
 		// what must not happen is that the damaged end stops the receive loop)
@@ -876,9 +903,19 @@ func (r *rsRun) runPlan(plan string) string {
 			if len(parts) != 2 {
 				return "bad-item:" + st
 			}
+			if parts[0] == "s" { // fs:<n> — the next n writes to the session store fail
+				r.store.mu.Lock()
+				r.store.failNext += atoi(parts[1])
+				r.store.mu.Unlock()
+				break
+			}
 			rsYieldMu.Lock()
 			rsFaultRules = append(rsFaultRules, &rsYieldRule{point: "write", sel: parts[0], n: atoi(parts[1])})
 			rsYieldMu.Unlock()
+		case strings.HasPrefix(st, "Q"): // the server has already sent this many content-related messages (seq_no = 2n+1 next)
+			r.srv.mu.Lock()
+			r.srv.content = uint32(atoi(st[1:]))
+			r.srv.mu.Unlock()
 		case strings.HasPrefix(st, "K"): // the server's clock runs this many seconds ahead of the client's
 			r.srv.mu.Lock()
 			r.srv.nextID += uint64(atoi(st[1:])) << 32
